@@ -405,7 +405,7 @@ func c01Sinks(c *Ctx, r *Report, p *Prov) {
 		if s.Just != "" {
 			r.OK("C01-R2", construct, c.InstrPos(s.Instr), "raw pass-through justified by "+s.Just)
 		} else {
-			r.Bad("C01-R2", construct, c.InstrPos(s.Instr), "input value reaches the output unmodified and its guard ["+atomsString(s.Atoms)+"] matches none of the accepted justifications J1-J10")
+			r.Bad("C01-R2", construct, c.InstrPos(s.Instr), "input value reaches the output unmodified and its guard ["+atomsString(s.Atoms)+"] matches none of the accepted justifications J1-J11")
 		}
 	}
 	r.Analysed["sinks"] = len(ss)
